@@ -45,10 +45,10 @@ PROPS = {
     ),
     "C19": dict(
         title="Header text is a fixpoint after one parse (no field smuggling)",
-        lean_modules=["Gowarc.Props.C19", "Gowarc.Props.C19pos"],
+        lean_modules=["Gowarc.Props.C19", "Gowarc.Props.C19pos", "Gowarc.Props.C19write"],
         audit_namespaces=["Gowarc.Props.C19"],
         n_quick=3000, n_thorough=40000,
-        required_theorems=["decode_id", "C19_fixpoint_false", "C19_api_false", "C19_clean_roundtrip", "parseLine_clean", "readLine_clean", "parseLoop_field", "cleanField_of_cleanB"],
+        required_theorems=["decode_id", "C19_fixpoint_false", "C19_api_false", "C19_clean_roundtrip", "parseLine_clean", "readLine_clean", "parseLoop_field", "cleanField_of_cleanB", "C19_write_all_or_error", "C01_marshal_all_or_error", "writePieces_ok", "writePieces_err", "writePieces_fails"],
         model_assumptions=[
             "bufio.Reader is modelled by its contract (ReadBytes, Peek); the implementation's independence of the underlying chunking is checked by running every case under four read styles",
             "mime.WordDecoder.DecodeHeader, base64 decoding and strings.EqualFold are transcribed from the Go standard library (GOROOT of the pinned toolchain)",
